@@ -1,10 +1,244 @@
 /-
-  C14 — BIP39 (placeholder while the proofs are being written; replaced by the real theorems).
+  C14 — BIP39 mnemonics encode entropy + checksum exactly and seeds follow PBKDF2.
+  Property theorems only (helpers: Buidl.Proofs.Mnemonic, Buidl.Proofs.PBKDF2, Buidl.Proofs.WordTable).
+
+  Models: Buidl.Model.Mnemonic (buidl/mnemonic.py, buidl/pbkdf2.py, helper.hmac_sha512_kdf,
+  HDPrivateKey.from_mnemonic up to the call of from_seed); specification: Buidl.Spec.PBKDF2 (RFC 2898).
+  `sha256` and the PRF (HMAC-SHA512 in the code) are arbitrary functions; strings are lists of code
+  points.  `wl` is the word list loaded from the generated table (`BIP39? = some wl`), which is
+  re-extracted from /repo/buidl/bip39_words.txt on every run; the table facts are re-checked by the
+  kernel (`Buidl.Mnemonic.bip39_check`) whenever it changes.
 -/
-import Buidl.Model.Mnemonic
+import Buidl.Proofs.Mnemonic
 namespace Buidl.Props.C14
 open Buidl Buidl.Mnemonic
 
-theorem constants_fingerprint : Gen.pbkdf2Rounds = 2048 ∧ Gen.kdfIterations = 2048 ∧ Gen.kdfReadLen = 64 := by decide
+/-! ## the word table -/
+
+/-- the BIP39 table loads, has 2^11 entries, every word is a non-empty string of `a`..`z` (so it survives
+    `split()` and `lower()`), and no key — a word, or the first four letters of a word longer than four —
+    is stored for two different indices -/
+theorem bip39_table_facts :
+    ∃ wl, BIP39? = some wl ∧ wl.words.length = 2048 ∧ KeysUnique wl.words ∧
+      ∀ w ∈ wl.words, IsWord w ∧ asciiLower w = w ∧ ∀ c ∈ w, 97 ≤ c ∧ c ≤ 122 := by
+  obtain ⟨wl, h, tok⟩ := bip39_table
+  exact ⟨wl, h, tok.hlen, tok.huniq, fun w hw => lowerWord_isWord w (tok.hlower w hw)⟩
+
+theorem table_ok (wl : WordList) (hwl : BIP39? = some wl) : TableOK 2048 wl := by
+  obtain ⟨wl', h, tok⟩ := bip39_table
+  rw [hwl] at h; cases h; exact tok
+
+/-- prefix lookup is well-defined: `BIP39[key]` succeeds exactly for full words and for the first four letters
+    of words longer than four, and returns the index of that (unique) word -/
+theorem lookup_well_defined (wl : WordList) (hwl : BIP39? = some wl) (key : PyStr) (i : Nat) :
+    wl.lookup key = some i ↔
+      i < 2048 ∧ (wl.words.getD i [] = key ∨ ((wl.words.getD i []).length > 4 ∧ (wl.words.getD i []).take 4 = key)) := by
+  have tok := table_ok wl hwl
+  rw [lookup_iff wl tok.huniq, matchesKey_eq, tok.hlen]
+
+/-- every index has its word, and the word looks up to the index -/
+theorem word_lookup (wl : WordList) (hwl : BIP39? = some wl) (i : Nat) (hi : i < 2048) :
+    ∃ w, wl.word i = some w ∧ wl.lookup w = some i := by
+  have tok := table_ok wl hwl
+  have hi' : i < wl.words.length := by rw [tok.hlen]; exact hi
+  refine ⟨wl.words.getD i [], ?_, lookup_of_match wl tok.huniq i _ hi' (matchesKey_self _)⟩
+  show wl.words[i]? = _
+  rw [List.getD_eq_getElem?_getD, List.getElem?_eq_getElem hi']; rfl
+
+/-! ## entropy → mnemonic → entropy -/
+
+/-- `mnemonic_to_bytes (bytes_to_mnemonic e) = e` for every entropy of 16/20/24/28/32 bytes and every
+    hash function returning at least one byte -/
+theorem roundtrip (sha256 : Bytes → Bytes) (hne : ∀ b, sha256 b ≠ []) (wl : WordList)
+    (hwl : BIP39? = some wl) (e : Bytes)
+    (hlen : e.length = 16 ∨ e.length = 20 ∨ e.length = 24 ∨ e.length = 28 ∨ e.length = 32) :
+    ∃ m, bytesToMnemonic sha256 wl e (8 * e.length) = some m ∧ mnemonicToBytes sha256 wl m = some e := by
+  obtain ⟨cs, nw, ok⟩ := sizeOK_of_length e.length hlen
+  exact mnemonic_roundtrip sha256 wl (table_ok wl hwl) e cs nw ok (hne e)
+
+/-- the words are the 11-bit groups of  entropy ‖ first |e|/4 bits of sha256(e):  with
+    `N = int(e) · 2^cs + (sha256(e)[0] >> (8 - cs))`, `cs = |e| / 4` bits, there are `nw = (8|e| + cs) / 11`
+    words and the `i`-th one is table entry number `(N >> 11 (nw - 1 - i)) mod 2^11` -/
+theorem words_are_11bit_groups (sha256 : Bytes → Bytes) (wl : WordList) (hwl : BIP39? = some wl) (e : Bytes)
+    (hlen : e.length = 16 ∨ e.length = 20 ∨ e.length = 24 ∨ e.length = 28 ∨ e.length = 32)
+    (h0 : UInt8) (t : Bytes) (hs : sha256 e = h0 :: t) :
+    ∃ ws, bytesToWords sha256 wl e (8 * e.length) = some ws ∧
+      ws.length = (8 * e.length + e.length / 4) / 11 ∧
+      ∀ i, i < ws.length →
+        ws[i]? = wl.word
+          ((beToNat e * 2 ^ (e.length / 4) + h0.toNat / 2 ^ (8 - e.length / 4))
+            / 2048 ^ (ws.length - 1 - i) % 2048) := by
+  have tok := table_ok wl hwl
+  obtain ⟨cs, nw, ok, hcs, hnw⟩ : ∃ cs nw, SizeOK e.length cs nw ∧ cs = e.length / 4 ∧
+      nw = (8 * e.length + e.length / 4) / 11 := by
+    rcases hlen with h | h | h | h | h <;> rw [h]
+    · exact ⟨_, _, sizeOK_16, by decide, by decide⟩
+    · exact ⟨_, _, sizeOK_20, by decide, by decide⟩
+    · exact ⟨_, _, sizeOK_24, by decide, by decide⟩
+    · exact ⟨_, _, sizeOK_28, by decide, by decide⟩
+    · exact ⟨_, _, sizeOK_32, by decide, by decide⟩
+  refine ⟨_, bytesToWords_eq sha256 wl tok.hlen e cs nw ok h0 t hs, by simp [digitsBE_length, hnw], ?_⟩
+  intro i hi
+  simp only [List.length_map, digitsBE_length] at hi ⊢
+  rw [List.getElem?_map, digitsBE_getElem _ _ _ hi, ← hcs]
+  simp only [Option.map_some, allBitsOf]
+  have hd : (beToNat e * 2 ^ cs + h0.toNat / 2 ^ (8 - cs)) / 2048 ^ (nw - 1 - i) % 2048 < wl.words.length := by
+    rw [tok.hlen]; exact Nat.mod_lt _ (by decide)
+  show _ = wl.words[_]?
+  rw [List.getD_eq_getElem?_getD, List.getElem?_eq_getElem hd]; rfl
+
+/-- `bytes_to_mnemonic` refuses every `num_bits` other than 128/160/192/224/256 -/
+theorem bytesToMnemonic_rejects_size (sha256 : Bytes → Bytes) (wl : WordList) (b : Bytes) (numBits : Nat)
+    (h : ¬ (numBits = 128 ∨ numBits = 160 ∨ numBits = 192 ∨ numBits = 224 ∨ numBits = 256)) :
+    bytesToMnemonic sha256 wl b numBits = none := by
+  have : Gen.b2mNumBits.contains numBits = false := by
+    simp only [Gen.b2mNumBits, List.contains_eq_mem, List.mem_cons, List.not_mem_nil, or_false,
+      decide_eq_false_iff_not]
+    exact h
+  unfold bytesToMnemonic bytesToWords
+  rw [this]; rfl
+
+/-! ## acceptance -/
+
+/-- a word sequence is accepted — and decodes to `e` — exactly when its length is 12/15/18/21/24, every word
+    is a stored key of the table (`lookupAll`; by `lookup_well_defined`: a full word or the first four letters
+    of a longer word) and, with `N` the number whose base-2^11 digits are the indices and `cs = len / 3`:
+    `e` is the big-endian `(11·len − cs)/8`-byte string of `N >> cs` and the low `cs` bits of `N` are the
+    top `cs` bits of the first byte of `sha256 e` -/
+theorem accept_iff (sha256 : Bytes → Bytes) (hne : ∀ b, sha256 b ≠ []) (wl : WordList)
+    (hwl : BIP39? = some wl) (mnemonic : PyStr) (e : Bytes) :
+    mnemonicToBytes sha256 wl mnemonic = some e ↔
+      let ws := pySplit mnemonic
+      (ws.length = 12 ∨ ws.length = 15 ∨ ws.length = 18 ∨ ws.length = 21 ∨ ws.length = 24) ∧
+      ∃ idx, lookupAll wl ws = some idx ∧
+        e = natToBE' ((11 * ws.length - ws.length / 3) / 8) (ofDigits 0 idx / 2 ^ (ws.length / 3)) ∧
+        ∃ h0 t, sha256 e = h0 :: t ∧
+          ofDigits 0 idx % 2 ^ (ws.length / 3) = h0.toNat / 2 ^ (8 - ws.length / 3) :=
+  wordsToBytes_iff sha256 hne wl (table_ok wl hwl).hlen (pySplit mnemonic) e
+
+/-- `[BIP39[w] for w in words]` succeeds exactly when every word is a stored key, and lists their indices -/
+theorem lookupAll_spec (wl : WordList) (ws : List PyStr) (idx : List Nat) :
+    lookupAll wl ws = some idx ↔ List.Forall₂ (fun w i => wl.lookup w = some i) ws idx :=
+  lookupAll_iff wl ws idx
+
+/-- a wrong length is refused whatever the words are -/
+theorem wrong_length_rejected (sha256 : Bytes → Bytes) (wl : WordList) (mnemonic : PyStr)
+    (h : ¬ ((pySplit mnemonic).length = 12 ∨ (pySplit mnemonic).length = 15 ∨ (pySplit mnemonic).length = 18 ∨
+      (pySplit mnemonic).length = 21 ∨ (pySplit mnemonic).length = 24)) :
+    mnemonicToBytes sha256 wl mnemonic = none := by
+  have : Gen.m2bWordCounts.contains (pySplit mnemonic).length = false := by
+    simp only [Gen.m2bWordCounts, List.contains_eq_mem, List.mem_cons, List.not_mem_nil, or_false,
+      decide_eq_false_iff_not]
+    exact h
+  unfold mnemonicToBytes wordsToBytes
+  rw [this]; rfl
+
+/-- a word that is not a stored key is refused (KeyError) -/
+theorem unknown_word_rejected (sha256 : Bytes → Bytes) (wl : WordList) (mnemonic : PyStr) (w : PyStr)
+    (hw : w ∈ pySplit mnemonic) (hk : wl.lookup w = none) :
+    mnemonicToBytes sha256 wl mnemonic = none := by
+  cases h : mnemonicToBytes sha256 wl mnemonic with
+  | none => rfl
+  | some e =>
+    exfalso
+    obtain ⟨idx, hidx⟩ := wordsToBytes_lookupAll sha256 wl _ e h
+    have hf := (lookupAll_iff wl _ idx).mp hidx
+    have : ∀ (ws : List PyStr) (idx : List Nat), List.Forall₂ (fun w i => wl.lookup w = some i) ws idx →
+        w ∈ ws → ∃ i, wl.lookup w = some i := by
+      intro ws idx hf
+      induction hf with
+      | nil => intro h; simp at h
+      | cons h1 _ ih =>
+        intro hm
+        simp only [List.mem_cons] at hm
+        rcases hm with rfl | hm
+        · exact ⟨_, h1⟩
+        · exact ih hm
+    obtain ⟨i, hi⟩ := this _ _ hf hw
+    rw [hk] at hi; cases hi
+
+/-! ## the vendored PBKDF2 is RFC 2898 -/
+
+/-- `PBKDF2(P, S, c).read(dkLen)` (buidl/pbkdf2.py) equals RFC 2898 PBKDF2 for every PRF with a fixed
+    non-zero output length, every password, salt, iteration count ≥ 1 and output length — including the
+    refusal "derived key too long" beyond (2^32 − 1)·hLen -/
+theorem pbkdf2_vendored_eq_rfc2898 (prf : Bytes → Bytes → Bytes) (hLen : Nat)
+    (hh : ∀ k m, (prf k m).length = hLen) (h0 : 0 < hLen) (P S : Bytes) (c : Nat) (hc : 1 ≤ c) (dkLen : Nat) :
+    pbkdf2Vendored prf P S c dkLen = Spec.pbkdf2 prf hLen P S c dkLen :=
+  pbkdf2Vendored_eq prf hLen hh h0 P S c hc dkLen
+
+/-- an iteration count of 0 is refused (`_setup`) -/
+theorem pbkdf2_zero_iterations (prf : Bytes → Bytes → Bytes) (P S : Bytes) (n : Nat) :
+    pbkdf2Vendored prf P S 0 n = none := by
+  simp [pbkdf2Vendored, PBKDF2.new]
+
+/-- buffering across reads: consecutive `read(n₁), read(n₂), …` on one object return the consecutive pieces
+    of the RFC 2898 key stream of total length `n₁ + n₂ + …` -/
+theorem pbkdf2_reads (prf : Bytes → Bytes → Bytes) (hLen : Nat)
+    (hh : ∀ k m, (prf k m).length = hLen) (h0 : 0 < hLen) (P S : Bytes) (c : Nat) (hc : 1 ≤ c)
+    (ns : List Nat) (hsum : ns.sum ≤ (2 ^ 32 - 1) * hLen) :
+    ∃ st dk, PBKDF2.new P S c = some st ∧ Spec.pbkdf2 prf hLen P S c ns.sum = some dk ∧
+      PBKDF2.reads prf st ns = some (chunks ns dk) := by
+  obtain ⟨st, hnew, inv⟩ := new_inv prf hLen P S c hc
+  have hmax : Gen.counterMax = 2 ^ 32 - 1 := by decide
+  refine ⟨st, (Spec.blocks prf P S c 0 ((ns.sum + hLen - 1) / hLen)).take ns.sum, hnew, ?_, ?_⟩
+  · unfold Spec.pbkdf2
+    rw [if_neg (by omega)]
+  · have h := reads_spec prf hLen hh h0 P S c ns st 0 inv (by rw [hmax]; omega)
+      ((ns.sum + hLen - 1) / hLen) (by simpa using ceil_mul_ge ns.sum hLen h0)
+    rw [h]
+    simp only [List.drop_zero, Option.some.injEq]
+    -- chunks only look at the first `ns.sum` bytes
+    have hch : ∀ (ns : List Nat) (s : Bytes), chunks ns (s.take ns.sum) = chunks ns s := by
+      intro ns
+      induction ns with
+      | nil => intro s; rfl
+      | cons n r ih =>
+        intro s
+        simp only [chunks, List.sum_cons, List.take_take, List.drop_take]
+        rw [Nat.min_eq_left (by omega), show n + r.sum - n = r.sum by omega, ih]
+    exact (hch ns _).symm
+
+/-! ## from_mnemonic -/
+
+/-- the extracted parameters of `hmac_sha512_kdf` / `from_mnemonic`: 2048 rounds (`PBKDF2_ROUNDS`, used as
+    `iterations=`), SHA-512, 64 bytes read, salt prefix `b"mnemonic"` -/
+theorem kdf_parameters :
+    Gen.pbkdf2Rounds = 2048 ∧ Gen.kdfIterations = Gen.pbkdf2Rounds ∧ Gen.kdfReadLen = 64 ∧
+    Gen.seedSaltPrefix = [109, 110, 101, 109, 111, 110, 105, 99] ∧ Gen.kdfDigest = "sha512" := by
+  refine ⟨rfl, rfl, rfl, rfl, by decide⟩
+
+/-- for an accepted mnemonic, the seed handed to `from_seed` is
+    `PBKDF2-PRF(password = the full table words of the indices joined by single spaces,
+                salt = "mnemonic" ‖ passphrase, c = 2048, dkLen = 64)` of RFC 2898 —
+    for every passphrase (any bytes), whatever whitespace or four-letter prefixes the input used -/
+theorem from_mnemonic_seed (sha256 : Bytes → Bytes) (prf : Bytes → Bytes → Bytes) (hLen : Nat)
+    (hh : ∀ k m, (prf k m).length = hLen) (h0 : 0 < hLen) (wl : WordList) (hwl : BIP39? = some wl)
+    (mnemonic : PyStr) (passphrase e : Bytes) (hacc : mnemonicToBytes sha256 wl mnemonic = some e) :
+    ∃ idx, lookupAll wl (pySplit mnemonic) = some idx ∧
+      mnemonicToSeed sha256 prf wl mnemonic passphrase
+        = Spec.pbkdf2 prf hLen (normalisedBytes wl idx)
+            ([109, 110, 101, 109, 111, 110, 105, 99] ++ passphrase) 2048 64 :=
+  mnemonicToSeed_eq sha256 prf hLen hh h0 wl (table_ok wl hwl) mnemonic passphrase e hacc
+
+/-- a mnemonic that `mnemonic_to_bytes` refuses yields no key -/
+theorem from_mnemonic_rejects (sha256 : Bytes → Bytes) (prf : Bytes → Bytes → Bytes) {K : Type}
+    (fromSeed : Bytes → Option K) (wl : WordList) (mnemonic : PyStr) (passphrase : Bytes)
+    (h : mnemonicToBytes sha256 wl mnemonic = none) :
+    fromMnemonic sha256 prf fromSeed wl mnemonic passphrase = none := by
+  simp [fromMnemonic, mnemonicToSeed_reject sha256 prf wl mnemonic passphrase h]
+
+/-- the master key is `from_seed` (BIP32 master derivation, property C08) applied to that seed -/
+theorem from_mnemonic_handoff (sha256 : Bytes → Bytes) (prf : Bytes → Bytes → Bytes) {K : Type}
+    (fromSeed : Bytes → Option K) (wl : WordList) (mnemonic : PyStr) (passphrase : Bytes) :
+    fromMnemonic sha256 prf fromSeed wl mnemonic passphrase
+      = (mnemonicToSeed sha256 prf wl mnemonic passphrase).bind fromSeed := rfl
+
+/-! ## non-vacuity -/
+
+example : ∃ wl, BIP39? = some wl := by
+  obtain ⟨wl, h, _⟩ := bip39_table_facts; exact ⟨wl, h⟩
+
+example : SizeOK 16 4 12 ∧ SizeOK 32 8 24 := ⟨sizeOK_16, sizeOK_32⟩
 
 end Buidl.Props.C14
